@@ -87,6 +87,31 @@ class GMRF(CallableModel):
     def _sample_shape(self) -> torch.Size:
         return self.field.tensor.shape[:-1]
 
+    def _difference_weights(self):
+        """Weights dividing the squared first differences in the density
+        (None for the plain GMRF)."""
+        if self.tree_model is not None:
+            heights = torch.cat(
+                (
+                    torch.zeros(
+                        self.tree_model.node_heights.shape[:-1] + (1,),
+                        dtype=self.field.dtype,
+                        device=self.field.device,
+                    ),
+                    self.tree_model.node_heights[..., self.tree_model.taxa_count :],
+                ),
+                -1,
+            )
+            heights_sorted = torch.sort(heights, -1)[0]
+            durations = heights_sorted[..., 1:] - heights_sorted[..., :-1]
+            weights = (durations[..., :-1] + durations[..., 1:]) / 2.0
+            if self.rescale:
+                weights = weights / heights_sorted[..., -1:]
+            return weights
+        elif self.weights is not None:
+            return getattr(self.weights, 'tensor', self.weights)
+        return None
+
     def precision_matrix(self) -> torch.Tensor:
         dim = self.field.shape[-1]
         precision = self.precision.tensor
@@ -95,14 +120,20 @@ class GMRF(CallableModel):
             dtype=self.field.dtype,
             device=self.field.device,
         )
+        # precision of each first difference: the same weights as the density
+        off_diagonal = precision.expand(self.field.shape[:-1] + (dim - 1,))
+        weights = self._difference_weights()
+        if weights is not None:
+            off_diagonal = off_diagonal / weights
         precision_matrix[..., range(dim - 1), range(1, dim)] = precision_matrix[
             ..., range(1, dim), range(dim - 1)
-        ] = -precision.expand(self.field.shape[:-1] + (dim - 1,))
+        ] = -off_diagonal
 
-        precision_matrix[..., range(1, dim - 1), range(1, dim - 1)] = 2.0 * precision
-        precision_matrix[..., 0, 0] = precision_matrix[
-            ..., (dim - 1), (dim - 1)
-        ] = precision.squeeze(-1)
+        precision_matrix[..., range(1, dim - 1), range(1, dim - 1)] = (
+            off_diagonal[..., :-1] + off_diagonal[..., 1:]
+        )
+        precision_matrix[..., 0, 0] = off_diagonal[..., 0]
+        precision_matrix[..., (dim - 1), (dim - 1)] = off_diagonal[..., -1]
         return precision_matrix
 
     @classmethod
